@@ -501,6 +501,8 @@ structure St where
   issued : List Issue := []
   /-- first sequence number no group has been given -/
   hi : Nat := 1
+  /-- ghost: a journal `Write`/`Sync` of the write path has failed at some time (its record may sit in a journal) -/
+  everFailed : Bool := false
 deriving DecidableEq, Repr
 
 inductive Act
@@ -540,7 +542,7 @@ def stepWriter (cfg : Cfg) (s : St) (d : Disk) : Act → Option (St × Disk)
         -- `writeJournal` returned an error: the call returns it; nothing is applied
         some ({ s with issued := s.issued ++ [⟨g, .failed⟩],
                        hi := if cfg.consumeSeqOnJournalError then g.fin else s.hi,
-                       seq := if cfg.consumeSeqOnJournalError then g.fin - 1 else s.seq }, d')
+                       seq := if cfg.consumeSeqOnJournalError then g.fin - 1 else s.seq, everFailed := true }, d')
       else some ({ s with w := .appended g, issued := s.issued ++ [⟨g, .pending⟩], hi := g.fin }, d')
     else none
   | .wSync o =>
@@ -551,7 +553,7 @@ def stepWriter (cfg : Cfg) (s : St) (d : Disk) : Act → Option (St × Disk)
         if o.failed then
           some ({ s with w := .idle, issued := setStatus g .failed s.issued,
                          hi := if cfg.consumeSeqOnJournalError then s.hi else g.seq,
-                         seq := if cfg.consumeSeqOnJournalError then g.fin - 1 else s.seq }, d')
+                         seq := if cfg.consumeSeqOnJournalError then g.fin - 1 else s.seq, everFailed := true }, d')
         else some ({ s with w := .synced g }, d')
       else none
     | _ => none
@@ -807,14 +809,15 @@ def stepTr (s : St) : Act → Option St
 /-! ## crash and recovery -/
 
 /-- the process ends: the in-memory state is gone, the ghost history stays -/
-def exitSt (s : St) : St := { phase := .crashed, issued := s.issued, hi := s.hi }
+def exitSt (s : St) : St := { phase := .crashed, issued := s.issued, hi := s.hi, everFailed := s.everFailed }
 
 /-- an acknowledgement without `Sync` promises nothing across a machine crash -/
 def downgrade (l : List Issue) : List Issue :=
   l.map fun i => if i.status = .acked ∧ i.grp.sync = false then { i with status := .unsure } else i
 
 /-- the machine dies -/
-def crashSt (s : St) : St := { phase := .crashed, issued := downgrade s.issued, hi := s.hi }
+def crashSt (s : St) : St :=
+  { phase := .crashed, issued := downgrade s.issued, hi := s.hi, everFailed := s.everFailed }
 
 def maxNum (l : List Nat) : Nat := l.foldl max 0
 
@@ -953,16 +956,36 @@ def Act.writerFaultFree : Act → Bool
     transaction commit or a recovery, except the two known findings -/
 def Act.jobFaultsOnly (s : St) (a : Act) : Bool := a.writerFaultFree && a.noD10 s && a.noD26 s
 
+/-- every journal file the next `Open` would replay is empty -/
+def cleanJournals (s : St) (d : Disk) : Bool := d.journals.all fun p => decide (p.1 < s.stJn) || p.2.all.isEmpty
+
+/-- restriction of `C08.fault_safe_writer_partial`: a transaction is not opened while the record of a write whose
+    journal operation failed may be waiting in a journal (see there) -/
+def Act.trOnCleanJournals (sd : St × Disk) : Act → Bool
+  | .trBegin => !sd.1.everFailed || cleanJournals sd.1 sd.2
+  | _ => true
+
+/-- the creation of the new journal in `newMem` does not fail after the file was created -/
+def Act.rotateCreateOK : Act → Bool
+  | .rotate o => o != .failEffect
+  | _ => true
+
+/-- the storage faults `C08.fault_safe_writer_partial` covers: all of `jobFaultsOnly`, and every failure of a
+    journal `Write`/`Sync` of the write path -/
+def Act.faultsOK (sd : St × Disk) (a : Act) : Bool :=
+  a.noD10 sd.1 && a.noD26 sd.1 && a.rotateCreateOK && a.trOnCleanJournals sd
+
 /-- every action of the run satisfies `P` in the state it is taken in -/
-def allowed (cfg : Cfg) (P : St → Act → Bool) : St × Disk → List Act → Bool
+def allowed (cfg : Cfg) (P : St × Disk → Act → Bool) : St × Disk → List Act → Bool
   | _, [] => true
   | sd, a :: as =>
-    P sd.1 a &&
+    P sd a &&
     match step cfg sd.1 sd.2 a with
     | some sd' => allowed cfg P sd' as
     | none => true
 
-def Allowed (cfg : Cfg) (P : St → Act → Bool) (sd : St × Disk) (as : List Act) : Prop := allowed cfg P sd as = true
+def Allowed (cfg : Cfg) (P : St × Disk → Act → Bool) (sd : St × Disk) (as : List Act) : Prop :=
+  allowed cfg P sd as = true
 
 def ReachableFF (cfg : Cfg) (sd : St × Disk) : Prop :=
   ∃ as, (∀ a ∈ as, a.faultFree) ∧ run cfg init as = some sd
